@@ -246,11 +246,11 @@ type svcInfo struct {
 }
 
 type c17Tool struct {
-	dir       string
-	repo      string
-	plugin    string
-	protocGo  string
-	env       []string
+	dir      string
+	repo     string
+	plugin   string
+	protocGo string
+	env      []string
 }
 
 func (t *c17Tool) run(bin string, req *pluginpb.CodeGeneratorRequest) (*pluginpb.CodeGeneratorResponse, error) {
@@ -734,9 +734,9 @@ func c17BuildAndRun(run *ev.Run, t *c17Tool, gen string, svcs []svcInfo) {
 		return
 	}
 	var results []struct {
-		Index                                   int
+		Index                                     int
 		Service, Method, Prefix, Err, Code, Panic string
-		Client, Handler                         []struct {
+		Client, Handler                           []struct {
 			StreamType int
 			Procedure  string
 			IsClient   bool
